@@ -113,6 +113,11 @@ func (m *allegMonitor) afterTx(h, now int64, t *aTx, tr TxResult, cls string, be
 		if before.Reqs[t.ID] != nil {
 			m.hit("allegation-overwrote-request", "block %d: id %q was in use", h, t.ID)
 		}
+		for id, o := range before.Reqs {
+			if o.Accused == t.Accused {
+				m.hit("second-allegation-against-accused-accepted", "block %d: %s already has the open request %q", h, t.Accused, id)
+			}
+		}
 	case "vote":
 		if !before.isActive(t.Signer) {
 			m.hit("vote-by-non-active-account", "block %d: ALLEGATION_VOTE by %s succeeded; its status record in the executing view: %+v", h, t.Signer, before.VStat[t.Signer])
@@ -180,9 +185,8 @@ func (m *allegMonitor) afterTx(h, now int64, t *aTx, tr TxResult, cls string, be
 			}
 		}
 		if t.Op == "unstake" {
-			// (the guard iterates committed keys only: a request opened in this very block is not seen)
 			for id, q := range before.Reqs {
-				if q.Accused == t.Val && m.x.cst.Reqs[id] != nil {
+				if q.Accused == t.Val {
 					m.hit("unstake-while-accused-succeeded", "block %d: %s has the open request %q", h, t.Val, id)
 				}
 			}
@@ -299,11 +303,8 @@ func (m *allegMonitor) afterEnd(h, now int64, pre, afterBegin, before, after *AS
 			}
 		}
 		if seenAcc[q.Accused] {
-			// a second request against one address (both opened in one block): removed by CleanTracker
-			if after.Reqs[id] != nil && active > 0 {
-				m.hit("duplicate-request-survived", "block %d request %q against %s", h, id, q.Accused)
-			}
-			m.x.res.Distribution["verdict:duplicate-request-dropped"]++
+			// the duplicate check of PerformAllegation sees every open request: this cannot happen
+			m.hit("two-open-requests-against-one-address", "block %d: request %q against %s beside another open request", h, id, q.Accused)
 			continue
 		}
 		post := after.Susp[q.Accused]
